@@ -257,7 +257,7 @@ def validate(traces):
 def tlc_rename(tier):
     names = '{"a", "r{2}"}'
     # B3 is the empty script, B4 holds lines that look like status replies, B6 a blank line, B7 exotic line separators
-    bodies = '{"B3", "B4", "B7"}' if tier != "thorough" else '{"B2", "B3", "B4", "B6", "B7"}'
+    bodies = '{"B3", "B4", "B7", "B8"}' if tier != "thorough" else '{"B2", "B3", "B4", "B6", "B7", "B8", "B9"}'
     cfg = ("SPECIFICATION RSpec\nCONSTANTS\n Names = %s\n Bodies = %s\n FaultKinds = {\"NO\", \"BYE\", \"silence\", \"lost\", \"stall\"}\n"
            "INVARIANT InvNoLoss\nINVARIANT InvNoOverwrite\nINVARIANT InvSuccessPost\nINVARIANT InvFailsCleanly\n"
            "INVARIANT EmitRename\nCHECK_DEADLOCK FALSE\n" % (names, bodies))
@@ -269,7 +269,7 @@ def tlc_rename(tier):
 def tlc_sessions(maxops, simulate, seed, ops):
     defs = ('MCInit == {[scripts |-> ("a" :> "B1") @@ ("b" :> "B2"), active |-> "a"], [scripts |-> <<>>, active |-> ""],'
             ' [scripts |-> ("r{2}" :> "B4"), active |-> ""]}\n')
-    cfg = ("SPECIFICATION Spec\nCONSTANTS\n Names = {\"a\", \"b\", \"r{2}\"}\n Bodies = {\"B1\", \"B2\", \"B3\", \"B4\", \"B5\", \"B6\", \"B7\"}\n"
+    cfg = ("SPECIFICATION Spec\nCONSTANTS\n Names = {\"a\", \"b\", \"r{2}\"}\n Bodies = {\"B1\", \"B2\", \"B3\", \"B4\", \"B5\", \"B6\", \"B7\", \"B8\", \"B9\"}\n"
            " MaxOps = %d\n InitStores <- MCInit\n OpKinds = {%s}\nINVARIANT Emit\nINVARIANT WellFormed\nCHECK_DEADLOCK FALSE\n"
            % (maxops, ", ".join('"%s"' % o for o in ops)))
     out = []
@@ -285,8 +285,22 @@ CLAUSES_FOR = {"C14": C14_CLAUSES, "C09": ("ResultMirrorsStatus", "ErrorExpected
 MACHINERY_CLAUSES = ("ServerDoubleWrong",)
 
 
+def seed_bodies(seed):
+    """two more bodies per run, drawn from a hostile vocabulary (no two bodies may normalise to the same lines)"""
+    rng = random.Random(seed * 17 + 3)
+    for key in ("B8", "B9"):
+        while True:
+            b = "".join(rng.choice(C.HOSTILE) for _ in range(rng.randrange(2, 12)))
+            # (a first line that looks like a literal marker is open finding F09, C17's domain: not drawn here)
+            if all(C.norm_body(b) != C.norm_body(v) for k, v in BODIES.items() if k != key) and C.norm_body(b) \
+                    and not b.lstrip().startswith("{"):
+                BODIES[key] = b
+                break
+
+
 def run(prop, tier, seed, write_evidence=True):
     t0 = time.time()
+    seed_bodies(seed)
     devs = findings.open_devs("MSStore")
     bydev = findings.by_dev()
     machinery = []
